@@ -171,6 +171,22 @@ impl<'a> Read for ShortReader<'a> {
     }
 }
 
+/// Writer that accepts at most `chunk` bytes per call (what a socket with a full send buffer does).
+struct ShortWriter {
+    out: Vec<u8>,
+    chunk: usize,
+}
+impl std::io::Write for ShortWriter {
+    fn write(&mut self, buf: &[u8]) -> std::io::Result<usize> {
+        let n = buf.len().min(self.chunk.max(1));
+        self.out.extend_from_slice(&buf[..n]);
+        Ok(n)
+    }
+    fn flush(&mut self) -> std::io::Result<()> {
+        Ok(())
+    }
+}
+
 fn has_var_field(m: &Msg) -> bool {
     match m {
         Msg::Req(r) => matches!(r, ReqM::Create(s) | ReqM::Open(s) | ReqM::Sql(s) | ReqM::Explain(s) if !s.is_empty()),
@@ -248,6 +264,13 @@ pub fn run_roundtrip(c: &RoundTrip) -> CaseOut {
         }
         if rd.pos != wire.len() {
             return Some(Failure::new("frame_leftover", format!("{} bytes left unread", wire.len() - rd.pos)));
+        }
+        // 2b. the same frame through a writer that takes only `chunk` bytes per call: it must arrive whole
+        let mut sw = ShortWriter { out: Vec::new(), chunk };
+        match write_message(&mut sw, &bytes) {
+            Ok(()) if sw.out == wire => {}
+            Ok(()) => return Some(Failure::new("frame_truncated_by_short_writes", format!("a writer accepting {chunk} bytes per call received {} of the {} bytes of the frame although write_message returned Ok", sw.out.len(), wire.len()))),
+            Err(e) => return Some(Failure::new("frame_write_error", format!("through a short-write writer: {e}"))),
         }
         // 3. send_*/recv_* end to end, two messages back to back (frame boundaries)
         let mut wire2 = Vec::new();
